@@ -120,6 +120,12 @@ func pushdownAllowed(opts *Opts, query *sql.Query) (bool, error) {
 				return false, err
 			}
 			if current.GroupByAll && parentGroupByAll {
+				if !tableKeysConfinedToPartition(t) {
+					// Rows of the table with the same key can live on several
+					// partitions, they need to be merged on the leader.
+					log.Debug("Pushdown not allowed because the table's keys are not confined to a single partition")
+					return false, nil
+				}
 				log.Debug("Pushdown allowed because we're grouping by all")
 			} else {
 				partitionBy := t.GetPartitionBy()
@@ -142,7 +148,14 @@ func pushdownAllowed(opts *Opts, query *sql.Query) (bool, error) {
 						})
 					}
 				}
+				keyParams := tableKeyParams(t)
 				for _, partitionKey := range partitionBy {
+					if keyParams != nil && !keyParams[partitionKey] {
+						// The table's key doesn't keep this dimension, so grouping by
+						// it can't separate the partitions either.
+						log.Debugf("Pushdown not allowed because partition key %v is not part of the table's key", partitionKey)
+						return false, nil
+					}
 					if !groupParams[partitionKey] {
 						log.Debugf("Pushdown not allowed because partition key %v is not represented in group by params %v", partitionKey, groupParams)
 						// Partition key not represented, can't push down
@@ -169,6 +182,44 @@ func pushdownAllowed(opts *Opts, query *sql.Query) (bool, error) {
 	}
 
 	return false, fmt.Errorf("Should never reach this branch of pushdownAllowed")
+}
+
+// tableKeysConfinedToPartition checks whether all points that end up under the
+// same key of the table are routed to the same partition. That's the case if
+// the table keeps all dimensions in its key, or if it is partitioned by
+// dimensions that are all part of its key.
+func tableKeysConfinedToPartition(t Table) bool {
+	keyParams := tableKeyParams(t)
+	if keyParams == nil {
+		return true
+	}
+	partitionBy := t.GetPartitionBy()
+	if len(partitionBy) == 0 {
+		// partitioned by all dimensions, but the key only keeps some of them
+		return false
+	}
+	for _, partitionKey := range partitionBy {
+		if !keyParams[partitionKey] {
+			return false
+		}
+	}
+	return true
+}
+
+// tableKeyParams returns the dimensions that the table keeps one-to-one in
+// its key, or nil if it keeps all dimensions.
+func tableKeyParams(t Table) map[string]bool {
+	tableGroupBy := t.GetGroupBy()
+	if len(tableGroupBy) == 0 {
+		return nil
+	}
+	keyParams := make(map[string]bool)
+	for _, groupBy := range tableGroupBy {
+		groupBy.Expr.WalkOneToOneParams(func(param string) {
+			keyParams[param] = true
+		})
+	}
+	return keyParams
 }
 
 func planClusterPushdown(opts *Opts, query *sql.Query) (core.FlatRowSource, error) {
